@@ -387,6 +387,11 @@ func runStage(pl *plan, bin string, st stage, runDir string, m *merged, scale fl
 					args = append(args, "-rapid.steps", strconv.Itoa(st.Steps))
 				}
 			}
+			// a shard that stops at a time-out suspect which then runs fine alone (a loaded machine, a
+			// garbage-collection burst) is run once more from the start with a wider per-case limit: the
+			// generated sequence is the same, so nothing is skipped
+			watchdog := ""
+		again:
 			cmd := exec.Command(bin, args...)
 			cmd.Dir = filepath.Join(verifDir, "props", strings.ToLower(pl.ID))
 			cmd.Env = append(os.Environ(),
@@ -401,6 +406,9 @@ func runStage(pl *plan, bin string, st stage, runDir string, m *merged, scale fl
 			)
 			for k, v := range st.Env {
 				cmd.Env = append(cmd.Env, k+"="+v)
+			}
+			if watchdog != "" {
+				cmd.Env = append(cmd.Env, "VERIF_WATCHDOG="+watchdog)
 			}
 			cmd.SysProcAttr = &syscall.SysProcAttr{Setpgid: true}
 			var buf bytes.Buffer
@@ -440,6 +448,14 @@ func runStage(pl *plan, bin string, st stage, runDir string, m *merged, scale fl
 					}
 				} else {
 					r.exit = 2
+				}
+			}
+			if r.exit == h.ExitSuspect && watchdog == "" {
+				if res, _, _ := replayCase(pl, bin, r.suspect); res == "ok" {
+					watchdog = "240"
+					r.exit, r.out = 0, ""
+					os.Remove(r.suspect)
+					goto again
 				}
 			}
 			if b, e := os.ReadFile(base + ".stats.json"); e == nil {
